@@ -33,11 +33,16 @@ let show (l : ZA.t list) = String.concat " " (List.map ZA.to_string l)
 
 let wild = ZA.of_int (-9)
 
-let rec spec_match impl sp =
+let any = ZA.of_int (-8)
+
+let rec spec_match' impl sp =
   match impl, sp with
   | [], [] -> true
-  | x :: a, y :: b -> (ZA.equal y wild || ZA.equal x y) && spec_match a b
+  | x :: a, y :: b -> (ZA.equal y wild || ZA.equal x y) && spec_match' a b
   | _, _ -> false
+
+let spec_match impl sp =
+  match sp with [y] when ZA.equal y any -> true | _ -> spec_match' impl sp
 
 let () =
   let n = ref 0 and mm = ref 0 and sm = ref 0 in
